@@ -50,8 +50,12 @@ def lake_build(targets, timeout=3000):
 
 
 def theorems_of(prop):
-    """names of the property theorems in Props/<prop>.lean (declarations `theorem <name>`)"""
-    path = os.path.join(LEAN, 'OnlVerif', 'Props', f'{prop}.lean')
+    """names of the property theorems in Props/<prop>.lean (declarations `theorem <name>`); `prop` may also be a module
+    name `OnlVerif.Props.X` (extra property modules of a check, e.g. the kernel-refinement theorems Props/C09K)"""
+    if prop.startswith('OnlVerif.'):
+        path = os.path.join(LEAN, *prop.split('.')) + '.lean'
+    else:
+        path = os.path.join(LEAN, 'OnlVerif', 'Props', f'{prop}.lean')
     if not os.path.exists(path):
         return []
     src = open(path).read()
@@ -96,6 +100,9 @@ def audit(prop, extra_modules=()):
     """build Props/<prop> and print the axioms of each of its theorems"""
     res = {'theorems': [], 'build_ok': False, 'bad_axioms': [], 'log': '', 'forbidden': []}
     thms = theorems_of(prop)
+    for mod in extra_modules:       # extra property modules are audited like the main one
+        if mod.startswith('OnlVerif.Props.'):
+            thms = thms + [t for t in theorems_of(mod) if t not in thms]
     res['theorems'] = thms
     ok, log = lake_build([f'OnlVerif.Props.{prop}'] + list(extra_modules) + ['driver'])
     res['build_ok'] = ok
@@ -106,6 +113,8 @@ def audit(prop, extra_modules=()):
     tmp = os.path.join(LEAN, f'.audit_{prop}_{os.getpid()}.lean')
     with open(tmp, 'w') as f:
         f.write(f'import OnlVerif.Props.{prop}\n')
+        for mod in extra_modules:
+            f.write(f'import {mod}\n')
         for t in thms:
             f.write(f'#print axioms {t}\n')
     try:
@@ -200,7 +209,7 @@ def run_check(prop, tier, seed, replay=None):
     checker_cmd = f'cd lean && lake build OnlVerif.Props.{prop} && lake env lean <#print axioms of every theorem in Props/{prop}.lean>'
     lc = None
     if tier == 'thorough' and au['build_ok']:
-        ok, out = leanchecker([f'OnlVerif.Props.{prop}'])
+        ok, out = leanchecker([f'OnlVerif.Props.{prop}'] + [m_ for m_ in getattr(mod, 'EXTRA_MODULES', ()) if m_.startswith('OnlVerif.Props.')])
         lc = ok
         checker_cmd += f' && lake env leanchecker OnlVerif.Props.{prop}'
         if not ok:
